@@ -46,7 +46,7 @@ package writer
 //@     assert [a-kibana-item-is-stored-only-under-a-validated-index-name] uf("safeName", bool, indexName)
 //@   site call ProcessIndexRequestPle #1:
 //@     assert [stream-id-cache-is-private-to-this-request] fresh(idxToStreamIdCache) && arg4 == myid
-//@   bounded eswriter/bulkerrors_test.go Test_Bounded_BulkErrorsFlag every sequence of at most 3 actions over 8 kinds of item (good document, unsupported action, oversize document, malformed document, unsafe index name; as last action also: truncated document, missing document line, unsupported action without newline) through the real handler, bodies that end in a newline also with a blank last line (434 bodies): one item per action, each item failed/created as its kind demands, errors true iff some item failed
+//@   bounded eswriter/bulkerrors_test.go Test_Bounded_BulkErrorsFlag every sequence of at most 3 actions over 8 kinds of item (good document, unsupported action, oversize document, malformed document, unsafe index name; as last action also: truncated document, missing document line, unsupported action without newline) through the real handler, bodies that end in a newline also with a blank last line (434 bodies): one item per action, each item failed/created as its kind demands and carrying the status of its own action (413 for an oversized document only, 400 for any other failure, 201 when created), errors true iff some item failed
 //@ end
 
 // C15 (one item per action, an unknown action affects only its own item): the
